@@ -171,6 +171,12 @@ TextFrom(ins, k) ==
        IN line \o <<10>> \o TextFrom(ins, k + 1)
 ToTextFn(p, ins) == << TextFrom(ins, 1) >>
 
+(* Map with the harness closures: (a x + b) mod m on bytes; x -> x - xi on    *)
+(* floats. DebugFilter: one packet "<value> " per sample (no tags).           *)
+AffineMod(p, ins) == << [k \in 1 .. Len(ins[1]) |-> (p.a * ins[1][k] + p.b) % p.m] >>
+NegPair(p, ins) == << [k \in 1 .. Len(ins[1]) |-> CPack(ins[1][k], -ins[1][k])] >>
+DebugText(p, ins) == [k \in 1 .. Len(ins[1]) |-> Digits(ins[1][k]) \o <<32>>]
+
 (* FFT stream framing: output length is the largest multiple of p.size not  *)
 (* above the input length; bin 0 of every frame is the sum of the frame     *)
 (* (other bins are not integers in general: NoNum).                         *)
